@@ -663,6 +663,25 @@ def rule_R7(ctx):
               "Some(base) iff |raw/multiplier - base| <= base * tolerance", "acceptance test of the grid snap is %s" % oks, ctx.loc(b))
 
 
+def rule_later_timestamp(ctx):
+    """R6: the reported uptime is the LATER timestamp divided by the frequency: every call of calculate_uptime_from_frequency in
+    check_ts_tcp receives the current segment's TSval (the ts_val parameter), never the stored reference sample"""
+    P = ctx.program
+    b = P.body("huginn_net_tcp::uptime::check_ts_tcp")
+    S = T.Slicer(b, P)
+    n = 0
+    for blk, t in Q.calls(b, "calculate_uptime_from_frequency"):
+        a = Q.call_args(b, S, blk, t)
+        n += 1
+        first = T.strip(a[0])
+        ok = first[0] == "param" and first[2] == "ts_val"
+        stored = any(x[0] == "field" and x[2] in ("ts_val", "ms") and T.strip(x[1])[0] != "param" for x in T.walk(a[0])) or T.has_call(a[0], "::get")
+        ctx.check(ok and not stored, "R6", "uptime:from-later-timestamp@%d" % n, "uptime computed from the current TSval",
+                  "calculate_uptime_from_frequency receives %s instead of the current segment's TSval: the uptime is that of the earlier sample, wrong whenever the two "
+                  "samples straddle a minute / hour / day boundary" % T.pp(a[0])[:60], ctx.loc(b, blk))
+    ctx.floor("R6", "uptime computations in check_ts_tcp", n, 2)
+
+
 def rule_twins(ctx):
     """the IPv4 and IPv6 copies of the per-packet functions route sides, roles and lookups identically (shared rule TW)"""
     from . import _twins as TW
@@ -670,6 +689,7 @@ def rule_twins(ctx):
 
 
 def run(ctx):
+    rule_later_timestamp(ctx)
     rule_twins(ctx)
     rule_R8(ctx)
     rule_R7(ctx)
